@@ -108,3 +108,47 @@ def fuseOK (g h : LGraph) (S req : List Obj) : Bool :=
   S.all (fun c => inKeys K c)
 
 end Dask.TaskTerm
+
+namespace Dask.TaskTerm
+
+/-! ### outputs with key renaming (`rename_keys=True` / a custom renamer)
+
+`fuse`: `rv[new] = rv[old]; rv[old] = new`. `fuse_linear` also replaces the references to `old` by `new` and deletes
+`old` unless it is requested. -/
+
+/-- replace every reference to an old key by its new name -/
+def normR (R : List (Obj × Obj)) (t : Obj) : Obj := R.foldl (fun acc on => subs on.1 on.2 acc) t
+
+def nodupObjs : List Obj → Bool
+  | [] => true
+  | x :: xs => !xs.contains x && nodupObjs xs
+
+/-- `fuseOKR g h S R req`: like `fuseOK`, for an output `h` in which the keys `old` of `R = [(old, new), …]` were
+    renamed: `h[new]` is the (final) term of `old`, `h[old]`, if still there, is the alias `new`, and references to an
+    `old` may or may not have been replaced by its `new` (both sides are compared after replacing all of them). -/
+def fuseOKR (g h : LGraph) (S : List Obj) (R : List (Obj × Obj)) (req : List Obj) : Bool :=
+  let K := g.map Prod.fst
+  let K' := h.map Prod.fst
+  let U := K ++ R.map Prod.snd
+  let fuel := g.length + 1
+  let termOK (t t0 : Obj) : Bool :=
+    let ft := finalTerm g K S fuel t0
+    normR R t == normR R ft && (legacyRefs U ft).all (fun d => K.contains d)
+  R.all (fun on => inKeys K on.1 && !K.contains on.2 && on.2.keyTyped && on.2.hashable && !on.2.isTask &&
+                   K'.contains on.2) &&
+  nodupObjs (R.map Prod.snd) &&
+  h.all (fun kv =>
+    match R.find? (fun on => on.2 == kv.1) with
+    | some on =>
+      (match g.lookup on.1 with
+       | some t0 => termOK kv.2 t0
+       | none => false)
+    | none =>
+      match g.lookup kv.1 with
+      | none => false
+      | some t0 => R.any (fun on => on.1 == kv.1 && kv.2 == on.2) || termOK kv.2 t0) &&
+  h.all (fun kv => (legacyRefs U kv.2).all (fun d => K'.contains d)) &&
+  req.all (fun k => K'.contains k) &&
+  S.all (fun c => inKeys K c)
+
+end Dask.TaskTerm
